@@ -11,8 +11,8 @@ RULE = ("isvalidaa / isvalidcdr3 on every string up to length 4 over {C,A,F,W,x,
         "call with the same options; multimerge on 2-4 tables with partially overlapping keys against a semantic join; "
         "non-trivial = a cell that standardisation changes / a key present in only some tables")
 ASSUMPTIONS = ["tidytcells is the oracle for what a cell standardises to (property wording); what is decided is option routing, cell locality and input preservation",
-               "multimerge tables have unique keys per table; without suffixes the value columns have distinct names"]
-REQUIRED_CLASSES = {"all": ["rotating-col_mapper", "object-dtype-table", "df_old-keyword", "same-text-in-tr-and-mhc-column", "empty-string", "non-string-object", "missing-cell", "junk-cell", "option-sensitive-cell", "col_mapper", "shifted-index", "extra-column", "merge-on-column", "merge-suffixes", "merge-partial-keys"]}
+               "without suffixes the value columns of the tables have distinct names (pandas would otherwise add its own _x/_y suffixes)"]
+REQUIRED_CLASSES = {"all": ["rotating-col_mapper", "object-dtype-table", "df_old-keyword", "same-text-in-tr-and-mhc-column", "empty-string", "non-string-object", "missing-cell", "junk-cell", "option-sensitive-cell", "col_mapper", "shifted-index", "extra-column", "merge-on-column", "merge-suffixes", "merge-partial-keys", "merge-repeated-keys", "merge-identical-sorted-key-sequences", "merge-index-named-like-key-column"]}
 MIN_OUTCOMES = 10
 AA = set("ACDEFGHIKLMNPQRSTVWY")
 
@@ -98,13 +98,20 @@ def spaces(tier):
                 if nt == 4 and ci % (11 if q else 3) != 1:
                     continue
                 yield ("merge", ks)
+        # tables in which a key occurs more than once (a relational join pairs every row with every row of that key)
+        L = ((1, 1, 2), (1, 2, 2), (2, 1, 1), (1, 1), (1, 3), (1, 1, 2, 2))
+        for nt in (2, 3):
+            for ks in itertools.product(L, repeat=nt):
+                if nt == 3 and sum(map(sum, ks)) % 3 != 1:
+                    continue
+                yield ("mergedup", ks)
 
     return [
         Space("predicates", gen_pred, "isvalidaa/isvalidcdr3 on all 4681 strings of U({C,A,F,W,x,' ',newline,A-umlaut},4) and an object zoo of %d objects" % len(zoo())),
         Space("single-cell-tables-x-option-product", gen_single, "one-row, one-column tables for each of the 9 standard columns x every cell value x all 192 option combinations", shards=32),
         Space("chain-rows-x-options", gen_chain, "one-row tables over each chain's four columns (all cell combinations) x option star (quick) / full 192-option product (thorough); all-nine-columns rows x 192 options", shards=64),
         Space("multi-row-tables-x-option-star", gen_multi, "2-row (thorough: + thinned 3-row) tables over 4 columns x option star; index shifted, extra column", shards=32),
-        Space("multimerge", gen_merge, "2..4 tables with key sets from the non-empty subsets of {1,2,3,4} (thinned by a fixed stride) x on in {index, column} x suffixes x how in {default (outer), inner, left}"),
+        Space("multimerge", gen_merge, "2..4 tables with key sets from the non-empty subsets of {1,2,3,4} (thinned by a fixed stride) x on in {index, column} x suffixes x how in {default (outer), inner, left}; tables with repeated keys (2..3 tables over 6 key lists; rows compared as a multiset with the relational join), also with an unrelated index named like the key column"),
     ]
 
 
@@ -155,6 +162,8 @@ def check_case(case, acc):
         _check_rows(acc, case)
     elif kind == "merge":
         _check_merge(acc, case)
+    elif kind == "mergedup":
+        _check_merge_dup(acc, case)
     else:
         raise HarnessError("unknown case %r" % (case,))
 
@@ -263,6 +272,74 @@ def _check_rows(acc, case):
             acc.fail("standardize_dataframe/standardize=False-not-identity", case, ren.to_dict("list"), r.to_dict("list"))
             return
     acc.ok((cols, tuple(tuple(str(r[c].iloc[i]) for c in cols) for i in range(n))), nontrivial=changed)
+
+
+def _check_merge_dup(acc, case):
+    import collections
+    import pandas as pd
+    import pyrepseq
+    keylists = case[1]
+    nt = len(keylists)
+    acc.cls("merge-repeated-keys")
+    if all(k == keylists[0] for k in keylists) and list(keylists[0]) == sorted(keylists[0]):
+        acc.cls("merge-identical-sorted-key-sequences")
+    vals = [[100 * ti + 10 * pos + k for pos, k in enumerate(kl)] for ti, kl in enumerate(keylists)]
+    for on in ("index", "k"):
+        for suff in (None, ["s%d" % i for i in range(nt)]):
+            for named_index in ((False, True) if (suff and on != "index") else (False,)):
+                for how in (None, "inner", "left"):
+                    dfs = []
+                    for ti, kl in enumerate(keylists):
+                        vname = "v" if suff else "v%d" % ti
+                        if on == "index":
+                            d = pd.DataFrame({vname: vals[ti]}, index=pd.Index(list(kl)))
+                        else:
+                            d = pd.DataFrame({on: list(kl), vname: vals[ti]})
+                            if named_index:
+                                # the table still carries an (unrelated) index that happens to be named like the key column
+                                acc.cls("merge-index-named-like-key-column")
+                                d.index = pd.Index(range(50, 50 + len(kl)), name=on)
+                        dfs.append(d)
+                    snaps = [d.copy(deep=True) for d in dfs]
+                    kw = {"how": how} if how else {}
+                    args = (dfs, on) if not suff else (dfs, on, suff)
+                    r = acc.call(pyrepseq.multimerge, *args, **kw)
+                    names = ["v_s%d" % i for i in range(nt)] if suff else ["v%d" % i for i in range(nt)]
+                    sets = [set(kl) for kl in keylists]
+                    if how == "inner":
+                        keys = set.intersection(*sets)
+                    elif how == "left":
+                        keys = sets[0]
+                    else:
+                        keys = set.union(*sets)
+                    exp = collections.Counter()
+                    for k in keys:
+                        per = [[v for v, kk in zip(vals[ti], keylists[ti]) if kk == k] or [None] for ti in range(nt)]
+                        for combo in itertools.product(*per):
+                            exp[(k,) + combo] += 1
+                    key = "multimerge/repeated-keys/on-%s/%s/%s" % (on if on == "index" else "column", "suffixes" if suff else "no-suffixes", how or "default-outer")
+                    if raised(r):
+                        acc.fail(key + "/raised-" + r.type, case, sorted(exp, key=str), r)
+                        return
+                    try:
+                        if on != "index" and not suff:
+                            got_keys, body = list(r[on]), r.drop(columns=[on])
+                        else:
+                            got_keys, body = list(r.index), r
+                        got = collections.Counter()
+                        for pos, k in enumerate(got_keys):
+                            got[(k,) + tuple(None if pd.isna(body[nm].iloc[pos]) else int(body[nm].iloc[pos]) for nm in names)] += 1
+                        okc = sorted(body.columns) == sorted(names)
+                    except Exception as e:
+                        acc.fail(key + "/malformed", case, sorted(exp, key=str), repr(r)[:300], note=repr(e))
+                        return
+                    if not okc or got != exp:
+                        acc.fail(key + "/rows", case, {"columns": names, "rows": sorted(exp.elements(), key=str)}, {"columns": list(body.columns), "rows": sorted(got.elements(), key=str)}, note="index named like the key column" if named_index else "")
+                        return
+                    if any(not a.equals(b) for a, b in zip(dfs, snaps)):
+                        acc.fail("multimerge/input-modified", case, "inputs unchanged", "changed")
+                        return
+                    acc.ok((on, bool(suff), how, len(got)), nontrivial=True)
 
 
 def _check_merge(acc, case):
